@@ -86,6 +86,10 @@ func main() {
 			fmt.Fprintln(os.Stderr, err)
 			os.Exit(2)
 		}
+		if opts["materialise"] != "" {
+			fmt.Print(zz.MaterialiseReplay(b, opts["materialise"]))
+			return
+		}
 		fmt.Println(zz.DumpIR(ctx, b, opts["lang"]))
 		return
 	}
